@@ -1,46 +1,28 @@
 import OpcuaVerif.Common
 import OpcuaVerif.Model.C10
 import OpcuaVerif.Drv.C12
+import OpcuaVerif.Drv.SrvConn
 
 namespace OpcuaVerif.C10
 open OpcuaVerif.C12
 
 inductive DState where
   | idle
-  | srv (s : Srv)
+  | conn (c : SrvConn.Conn)
   | rx (st : C11.DState)
   | cli (st : C12.DState)
 
-def tail (s : Srv) : String := s!"pend={s.pending.length} bytes={s.bytes}"
-
 def dstep (st : DState) (toks : List String) : DState × String :=
   match toks with
-  | ["reset", "srv", mc, mm, l0] =>
-    match mc.toNat?, mm.toNat?, l0.toNat? with
-    | some mc, some mm, some l0 =>
-      (.srv { maxChunks := mc, maxMsg := mm, l0 := l0, chanId := 1, last := 1, pending := [], closed := false }, "ok")
-    | _, _, _ => (st, "bad-op")
+  | "reset" :: "conn" :: _ =>
+    match SrvConn.dstep SrvConn.conn0 toks with
+    | (c', o) => (.conn c', o)
   | "reset" :: "cli" :: _ =>
     match C12.dstep .idle toks with
     | (s', o) => (.cli s', o)
   | "reset" :: "rx" :: _ =>
     match C11.dstep .idle toks with
     | (s', o) => (.rx s', o)
-  | ["chunk", ci, f, n] =>
-    match st, parseCI? ci, n.toNat? with
-    | .srv s, some (some c), some n =>
-      let fin : Option Fin := if f = "F" then some .final else if f = "C" then some .intermediate
-        else if f = "A" then some .abort else none
-      match fin with
-      | none => (st, "bad-op")
-      | some fin =>
-        if n < 24 then (st, "bad-op") else
-        match s.chunk true c fin n with
-        | (s', .stored) => (.srv s', s!"ok stored {tail s'}")
-        | (s', .accepted r) => (.srv s', s!"ok accepted req={r} {tail s'}")
-        | (s', .rejected e) => (.srv s', s!"err {e} {tail s'}")
-        | (s', .closed) => (.srv s', "err closed")
-    | _, _, _ => (st, "bad-op")
   | _ =>
     match st with
     | .rx s =>
@@ -49,6 +31,9 @@ def dstep (st : DState) (toks : List String) : DState × String :=
     | .cli s =>
       match C12.dstep s toks with
       | (s', o) => (.cli s', o)
+    | .conn c =>
+      match SrvConn.dstep c toks with
+      | (c', o) => (.conn c', o)
     | _ => (st, "bad-op")
 
 def driver : Driver := { σ := DState, init := .idle, step := dstep }
